@@ -72,6 +72,23 @@ func kNamedIn(pkgPath, pkgName, name string, targs []ktype, under ktype) ktype {
 	return t
 }
 
+// kAliasIn is an alias type `type name = rhs` declared in the given package (a *types.Alias, as go/types
+// presents declared aliases since go1.23).
+func kAliasIn(pkgPath, pkgName, name string, rhs ktype) ktype {
+	var pkg interp.Value = interp.NilV{}
+	if pkgPath != "" {
+		pkg = pkgOpaque(pkgPath, pkgName)
+	}
+	obj := &interp.Opaque{Kind: "types.TypeName", ID: name + ".obj", GoType: "*go/types.TypeName", Methods: mmap{"Pkg": tmeth(pkg), "Name": tmeth(interp.Lit(name))}}
+	t := &interp.Opaque{Kind: "types.Type", ID: name, GoType: "*go/types.Alias", Methods: mmap{"Obj": tmeth(obj), "Rhs": tmeth(rhs), "TypeArgs": tmeth(interp.NilV{}), "TypeParams": tmeth(interp.NilV{}), "String": tmeth(interp.Lit(name))}, Attrs: map[string]interp.Value{"unalias": rhs}}
+	if u, ok := rhs.Methods["Underlying"]; ok {
+		t.Methods["Underlying"] = u
+	} else {
+		t.Methods["Underlying"] = tmeth(rhs)
+	}
+	return t
+}
+
 // kLeaf is a named type of its own package k<name>.
 func kLeaf(name string) ktype { return kNamedIn(kpath(name), name, "T"+name, nil, nil) }
 
